@@ -18,7 +18,8 @@
      P4:body       final body is not the one the last handler / call site defined
      P4:ownheaders the rendered error's own headers are missing
      P4:vary       an error was rendered without Vary: Accept
-     D:resource D:renderbody D:headers D:vary   model detail the property does not demand
+     D:resource D:renderfallback D:headers D:vary   model detail the property does not demand
+                   (renderfallback: what is sent when rendering the error handler's response fails too)
      H:*           the harness logged something the model has no action for (machinery) *)
 EXTENDS Pipeline, Json, IOUtils
 
@@ -90,26 +91,29 @@ Consume ==
 
 RenderFails ==
     /\ RenderEvent
-    /\ IF body.k # "mark" THEN Fail("P4:body")       \* the implementation rendered an application body the model says is gone
+    /\ IF body.k \notin {"mark", "hbad"} THEN Fail("P4:body")   \* the implementation rendered a body the model says is gone
        ELSE IF Ev.cls \notin DOMAIN TMro THEN Fail("H:cls")
-       ELSE RenderCall("raise", Ev.cls) /\ l' = l + 1 /\ UNCHANGED <<tid, st, verdict, dnote>>
+       ELSE (RenderCall("raise", Ev.cls) \/ RenderBad(Ev.cls)) /\ l' = l + 1 /\ UNCHANGED <<tid, st, verdict, dnote>>
+
+RenderMissing ==        \* the model holds an unserialisable body, the implementation rendered without failing
+    /\ phase = "render" /\ body.k = "hbad" /\ ~RenderEvent /\ Fail("P4:body")
 
 F == T.final
 ObsHdrs == {ObsIdx(x) : x \in hdrs} \ {0}
-ObsBody == IF body.k \in {"mark", "err", "stext", "hset"} THEN [k |-> body.k, id |-> ObsIdx(body.id)] ELSE body
-RenderFailed == pend.back = "end"
+ObsBody == IF body.k \in {"mark", "err", "stext", "hset", "hbad"} THEN [k |-> body.k, id |-> ObsIdx(body.id)] ELSE body
+Fallback == pend.back = "fallback"
 FinalP ==
     IF F.escaped # escaped THEN "P4:escaped"
     ELSE IF escaped THEN "ok"
     ELSE IF F.status # status THEN "P4:status"
-    ELSE IF ~RenderFailed /\ F.body # ObsBody THEN (IF F.body.k = "mark" THEN "P4:stale" ELSE "P4:body")
-    ELSE IF ~RenderFailed /\ body.k \in {"err", "stext"} /\ ObsIdx(body.id) # 0 /\ ObsIdx(body.id) \notin SetOf(F.hdrs)
+    ELSE IF ~Fallback /\ F.body # ObsBody THEN (IF F.body.k = "mark" THEN "P4:stale" ELSE "P4:body")
+    ELSE IF ~Fallback /\ body.k \in {"err", "stext"} /\ ObsIdx(body.id) # 0 /\ ObsIdx(body.id) \notin SetOf(F.hdrs)
            THEN "P4:ownheaders"
-    ELSE IF ~RenderFailed /\ body.k \in {"err", "e500"} /\ ~F.vary THEN "P4:vary"
+    ELSE IF ~Fallback /\ body.k \in {"err", "e500"} /\ ~F.vary THEN "P4:vary"
     ELSE "ok"
 FinalD ==
     IF escaped \/ F.escaped THEN "ok"
-    ELSE IF RenderFailed /\ F.body # ObsBody THEN "D:renderbody"
+    ELSE IF Fallback /\ F.body # ObsBody THEN "D:renderfallback"
     ELSE IF SetOf(F.hdrs) # ObsHdrs THEN "D:headers"
     ELSE IF F.vary # vary THEN "D:vary"
     ELSE "ok"
@@ -125,7 +129,7 @@ Done ==
     /\ PrintT(<<"VERDICT", tid, (IF verdict = "ok" THEN dnote ELSE verdict), l - 1>>)
     /\ st' = "done" /\ UNCHANGED <<vars, tid, l, verdict, dnote>>
 
-TNext == \/ (st = "run" /\ (Silent \/ Consume \/ RenderFails \/ Finish))
+TNext == \/ (st = "run" /\ (Silent \/ Consume \/ RenderFails \/ RenderMissing \/ Finish))
          \/ Done
 TSpec == TInit /\ [][TNext]_<<vars, tvars>>
 Sound == st = "run" => verdict = "ok"
